@@ -656,6 +656,20 @@ example : (LineD.group "box".toList none).Ok ∧ NoEsc (LineD.group "box".toList
     (LineD.group "box".toList none).aline 2 = { indent := 2, name := "box".toList, p := .group } :=
   ⟨⟨⟨'b', "ox".toList, by decide⟩, by decide⟩, by show ∀ c ∈ _, c ≠ '\\' ∧ c ≠ '\n'; decide, rfl⟩
 
+/-- **The directive line forms** `!constant` and `$unit …` (the two recognisers of `_determine_node` inside the
+    property's grammar that `LineD` does not describe): at any indentation, `!constant` followed by an optional
+    comment is lexed to the constant marker (whose effect on the last created parameter is `C14_constant_marks_last`),
+    and `$unit`, a blank and any further text is lexed to a unit-definition node (which creates no parameter:
+    the main loop of the model skips it; custom units are outside the modelled domain). -/
+theorem C13_directive_lines_lexed (k : Nat) (cm : Option (Nat × Str)) (w : Char) (rest : Str)
+    (hcm : NoEsc (renderComment cm)) (hw : isWs w = true) (hr : NoEsc (w :: rest)) :
+    determine (List.replicate k ' ' ++ (constantWord ++ renderComment cm)) = .ok { kind := .constant, indent := k } ∧
+    determine (List.replicate k ' ' ++ (unitWord ++ w :: rest)) = .ok { kind := .unit, indent := k } :=
+  ⟨determine_constant k cm hcm, determine_unitdef k w rest hw hr⟩
+
+example : constantWord = "!constant".toList ∧ unitWord = "$unit".toList ∧ isWs ' ' = true ∧
+    NoEsc (' ' :: "length = 1 m".toList) := ⟨by decide, by decide, by decide, by show ∀ c ∈ _, c ≠ '\\' ∧ c ≠ '\n'; decide⟩
+
 /-- **Escaped quotes.**  A definition whose double-quoted value is written with `\\"` for every quote
     character of the intended text `s` (`s` itself free of backslash, newline and `$`): the lexer marks
     the escapes (`$@01`), finds the closing quote, and hands back exactly `s` — the backslashes are gone,
